@@ -149,17 +149,17 @@ func run(t *testing.T, c *Case) (o Obs) {
 	synctest.Test(t, func(t *testing.T) {
 		br := &sbroker.Broker{
 			Advertise: func(ak *kmsg.ApiVersionsResponseApiKey) bool {
-				if ak.ApiKey == 3 {
+				if ak.ApiKey == c.Key {
 					ak.MaxVersion = c.Ver
 				}
 				return true
 			},
 			Script: c.script(),
 			Honest: func(conn, slot int, q *sbroker.Request) []byte {
-				if q.Key != 3 {
+				if q.Key != c.Key {
 					return nil
 				}
-				return metadataFrame(q.Version, q.Corr, honestMarker(conn, slot), 0)
+				return respFrame(q.Key, q.Version, q.Corr, honestMarker(conn, slot), 0)
 			},
 		}
 		br.Start()
@@ -172,6 +172,7 @@ func run(t *testing.T, c *Case) (o Obs) {
 			kgo.BrokerMaxReadBytes(c.MaxRead),
 			kgo.FetchMaxBytes(defaultMaxRead),
 			kgo.FetchMaxPartitionBytes(defaultMaxRead),
+			kgo.DisableClientMetrics(), // no KIP-714 telemetry requests of the client's own in between
 		)
 		if err != nil {
 			o.Infra = "NewClient: " + err.Error()
@@ -203,19 +204,17 @@ func run(t *testing.T, c *Case) (o Obs) {
 				if at > 0 {
 					time.Sleep(at)
 				}
-				req := kmsg.NewPtrMetadataRequest()
-				name := fmt.Sprintf("r%d", i)
-				rt := kmsg.NewMetadataRequestTopic()
-				rt.Topic = &name
-				req.Topics = append(req.Topics, rt)
-				resp, err := handle.Request(ctxs[i], req)
+				resp, err := handle.Request(ctxs[i], reqFor(c.Key, i))
 				r := ReqResult{Returned: true, AtUs: us(time.Since(start)), OK: err == nil, Class: errClass(err)}
 				if err != nil {
 					r.Err = err.Error()
 				}
+				if resp != nil && resp.Key() == c.Key {
+					if mk, ok := markerFrom(resp); ok {
+						r.HasResp, r.Marker = true, mk
+					}
+				}
 				if m, ok := resp.(*kmsg.MetadataResponse); ok && m != nil {
-					r.HasResp = true
-					r.Marker = m.ControllerID
 					r.Throttle = m.ThrottleMillis
 					if m.ClusterID != nil {
 						r.Cluster = *m.ClusterID
@@ -243,7 +242,7 @@ func run(t *testing.T, c *Case) (o Obs) {
 		}
 		all := make(chan struct{})
 		go func() { wg.Wait(); close(all) }()
-		limit := time.NewTimer(last + bound(c.N) + time.Duration(c.ExtraThrottleMs)*time.Millisecond)
+		limit := time.NewTimer(last + bound(c.N) + time.Duration(scriptThrottleMs(c))*time.Millisecond)
 		select {
 		case <-all:
 			limit.Stop()
@@ -270,11 +269,64 @@ func run(t *testing.T, c *Case) (o Obs) {
 						fmt.Sscanf(*mr.Topics[0].Topic, "r%d", &idx)
 					}
 				}
+				if rq.Req.Key != c.Key {
+					idx = -3 // not one of the case's requests
+				}
+				if c.Key != 3 && rq.Req.Key == c.Key {
+					// keyed families: requests are issued at distinct
+					// instants and never throttled, so the arrival time
+					// names the request
+					for i, at := range c.IssueUs {
+						if at == us(rq.At) {
+							idx = i
+						}
+					}
+					if rq.Req.Version != c.Ver && o.Infra == "" {
+						o.Infra = fmt.Sprintf("the client wrote %s v%d, the case was built for v%d", kmsg.NameForKey(c.Key), rq.Req.Version, c.Ver)
+					}
+				}
 				co.Slots = append(co.Slots, idx)
 				co.Corrs = append(co.Corrs, rq.Req.Corr)
 				co.ArrivalUs = append(co.ArrivalUs, us(rq.At))
 			}
 			o.Conns = append(o.Conns, co)
+		}
+		if c.Key != 3 {
+			// keyed families: arrivals that match no issue instant (a request
+			// that slept out a throttle first) are given, in arrival order,
+			// to the earliest-issued request not yet placed: the broker's
+			// request queue is FIFO.
+			placed := map[int]bool{}
+			for _, co := range o.Conns {
+				for _, idx := range co.Slots {
+					if idx >= 0 {
+						placed[idx] = true
+					}
+				}
+			}
+			for {
+				bc, bs := -1, -1
+				for ci, co := range o.Conns {
+					for s, idx := range co.Slots {
+						if idx == -1 && (bc < 0 || co.ArrivalUs[s] < o.Conns[bc].ArrivalUs[bs]) {
+							bc, bs = ci, s
+						}
+					}
+				}
+				if bc < 0 {
+					break
+				}
+				pick := -2 // stays unknown: -2 so that the loop ends
+				for i, at := range c.IssueUs {
+					if !placed[i] && at <= o.Conns[bc].ArrivalUs[bs] && (pick < 0 || at < c.IssueUs[pick]) {
+						pick = i
+					}
+				}
+				o.Conns[bc].Slots[bs] = pick
+				if pick >= 0 {
+					placed[pick] = true
+				}
+			}
 		}
 		for _, cancel := range cancels {
 			cancel()
@@ -338,7 +390,7 @@ func skipTags(b []byte) (rest []byte, ok bool) {
 // correlation id, correlation id different from the waiting request's,
 // malformed header tag buffer) fails that request and every later one on the
 // connection; a body that does not decode fails only its own request.
-func refModel(stream []byte, corrs []int32, ver int16, maxRead int32) []slotModel {
+func refModel(stream []byte, corrs []int32, key, ver int16, maxRead int32) []slotModel {
 	out := make([]slotModel, len(corrs))
 	dead := ""
 	p := 0
@@ -379,7 +431,11 @@ func refModel(stream []byte, corrs []int32, ver int16, maxRead int32) []slotMode
 			continue
 		}
 		body := payload[4:]
-		if ver >= 9 { // Metadata v9+ is flexible: response header v1
+		resp := kmsg.ResponseForKey(key)
+		resp.SetVersion(ver)
+		// response header v1 (tag buffer) for flexible versions - except
+		// ApiVersions, whose response header is always v0
+		if resp.IsFlexible() && key != 18 {
 			rest, ok := skipTags(body)
 			if !ok {
 				fail("malformed-header-tags")
@@ -387,15 +443,63 @@ func refModel(stream []byte, corrs []int32, ver int16, maxRead int32) []slotMode
 			}
 			body = rest
 		}
-		resp := kmsg.NewPtrMetadataResponse()
-		resp.Version = ver
+		// an ApiVersions body answering with UNSUPPORTED_VERSION (35) is
+		// always in v0 format
+		if key == 18 && len(body) > 2 && body[1] == 35 {
+			resp.SetVersion(0)
+		}
 		if err := resp.ReadFrom(body); err != nil {
 			out[k] = slotModel{Reason: "body-does-not-decode"} // not fatal for the connection
 			continue
 		}
-		out[k] = slotModel{OK: true, Marker: resp.ControllerID}
+		mk, _ := markerFrom(resp)
+		out[k] = slotModel{OK: true, Marker: mk}
 	}
 	return out
+}
+
+// scriptThrottleMs is the sum of the throttles (ThrottleMillis > 0) carried by
+// every decodable response frame of the script, whatever its correlation id:
+// the most the client may legitimately sleep on connection 1 while it lives
+// (the client honours a throttle of any size, by design). Some hostile bodies
+// decode to a response with a huge throttle by accident; this accounts for
+// them as well as for the deliberate ones.
+func scriptThrottleMs(c *Case) int64 {
+	var stream []byte
+	for _, s := range c.Steps {
+		b, _ := hex.DecodeString(s.Hex)
+		stream = append(stream, b...)
+	}
+	var sum int64
+	for len(stream) >= 4 {
+		size := int32(binary.BigEndian.Uint32(stream))
+		if size < 4 || int(size) > len(stream)-4 {
+			break
+		}
+		body := stream[8 : 4+size]
+		stream = stream[4+size:]
+		resp := kmsg.ResponseForKey(c.Key)
+		resp.SetVersion(c.Ver)
+		if resp.IsFlexible() && c.Key != 18 {
+			rest, ok := skipTags(body)
+			if !ok {
+				continue
+			}
+			body = rest
+		}
+		if c.Key == 18 && len(body) > 2 && body[1] == 35 {
+			resp.SetVersion(0)
+		}
+		if resp.ReadFrom(body) != nil {
+			continue
+		}
+		if tr, ok := resp.(kmsg.ThrottleResponse); ok {
+			if ms, _ := tr.Throttle(); ms > 0 {
+				sum += int64(ms)
+			}
+		}
+	}
+	return sum
 }
 
 type verdict struct{ cls, what string }
@@ -410,7 +514,7 @@ func judge(c *Case, o *Obs) (vs []verdict, models map[int][]slotModel) {
 		var m []slotModel
 		if cn.ID == 1 {
 			sent, _ := hex.DecodeString(cn.SentHex)
-			m = refModel(sent, cn.Corrs, c.Ver, c.MaxRead)
+			m = refModel(sent, cn.Corrs, c.Key, c.Ver, c.MaxRead)
 		} else {
 			for s := range cn.Slots {
 				m = append(m, slotModel{OK: true, Marker: honestMarker(cn.ID, s)})
@@ -434,7 +538,8 @@ func judge(c *Case, o *Obs) (vs []verdict, models map[int][]slotModel) {
 			tDeath = r.AtUs
 		}
 	}
-	extraUs := c.ExtraThrottleMs * 1000
+	extraMs := scriptThrottleMs(c)
+	extraUs := extraMs * 1000
 	for i, r := range o.Reqs {
 		if !r.Returned {
 			vs = append(vs, verdict{"hang", fmt.Sprintf("request %d (issued at %dus) had not returned %dus after the last request was issued", i, c.IssueUs[i], o.BoundUs+extraUs)})
@@ -446,7 +551,7 @@ func judge(c *Case, o *Obs) (vs []verdict, models map[int][]slotModel) {
 		}
 		if tDeath >= 0 && r.AtUs > max(c.IssueUs[i], tDeath)+o.BoundUs {
 			vs = append(vs, verdict{"late-after-connection-death", fmt.Sprintf("the client reported the connection's death to a caller at %dus, but request %d (issued at %dus) returned only at %dus (%s %q): more than the %dus bound later - it kept waiting (throttle of the dead connection: %dms scripted)",
-				tDeath, i, c.IssueUs[i], r.AtUs, r.Class, r.Err, o.BoundUs, c.ExtraThrottleMs)})
+				tDeath, i, c.IssueUs[i], r.AtUs, r.Class, r.Err, o.BoundUs, extraMs)})
 			continue
 		}
 		rs := where[i]
@@ -513,7 +618,7 @@ func outcomeKey(c *Case, o *Obs) string {
 			parts = append(parts, r.Class)
 		}
 	}
-	return fmt.Sprintf("%s|v%d|%s|conns=%d", c.Fam, c.Ver, strings.Join(parts, ","), len(o.Conns))
+	return fmt.Sprintf("%s|k%dv%d|%s|conns=%d", c.Fam, c.Key, c.Ver, strings.Join(parts, ","), len(o.Conns))
 }
 
 // ---------------------------------------------------------------- workers
@@ -550,6 +655,13 @@ func caseSize(c *Case) int {
 	return n
 }
 
+// checkpointFile: everything a worker has found for its cases with index <= Through
+// (since it was started).
+type checkpointFile struct {
+	Through int64
+	Res     *childResult
+}
+
 func childMain(t *testing.T, spec string) int {
 	var w, n int
 	if _, err := fmt.Sscanf(spec, "%d/%d", &w, &n); err != nil || n <= 0 {
@@ -574,10 +686,25 @@ func childMain(t *testing.T, spec string) int {
 	var idx int64 = -1
 	var pb [8]byte
 	sampled := map[string]bool{}
+	// A worker restarted after a crash resumes after the last checkpoint the
+	// crashed one wrote (its results up to there were merged by the parent).
+	var from int64
+	fmt.Sscanf(os.Getenv("C22_FROM"), "%d", &from)
+	sinceCkpt := 0
+	checkpoint := func(through int64) {
+		b, _ := json.Marshal(checkpointFile{Through: through, Res: res})
+		if os.WriteFile(out+".ckpt.tmp", b, 0o644) == nil {
+			os.Rename(out+".ckpt.tmp", out+".ckpt")
+		}
+	}
 	enumerate(tierLimits(ev.Thorough()), func(c *Case) {
 		idx++
-		if idx%int64(n) != int64(w) || skips[idx] || res.Infra != "" {
+		if idx < from || idx%int64(n) != int64(w) || skips[idx] || res.Infra != "" {
 			return
+		}
+		if sinceCkpt++; sinceCkpt > 400 {
+			sinceCkpt = 0
+			checkpoint(idx - 1)
 		}
 		if f := os.Getenv("C22_FAMILY"); f != "" && f != c.Fam { // development aid
 			return
@@ -656,7 +783,10 @@ func replay(t *testing.T, arg string) int {
 			return 2
 		}
 	}
-	fmt.Printf("replaying %s: %s (n=%d, Metadata v%d, mode %s)\n", c.Fam, c.Desc, c.N, c.Ver, c.Mode)
+	if c.Key == 0 && c.Fam != "short" && !strings.HasPrefix(c.Fam, "keyed-") {
+		c.Key = 3 // artefact written before the key became a dimension
+	}
+	fmt.Printf("replaying %s: %s (n=%d, %s, mode %s)\n", c.Fam, c.Desc, c.N, flavour{c.Key, c.Ver}, c.Mode)
 	o := run(t, c)
 	vs, models := judge(c, &o)
 	b, _ := json.MarshalIndent(map[string]any{"observed": o, "reference_model_per_connection": models}, "", " ")
@@ -704,10 +834,16 @@ func TestVerifC22(t *testing.T) {
 		"frames), tags (10 hostile response header tag buffers, flexible flavour), throttle (ThrottleMillis=300 in every response), cancel (whole stream and stream cut at every byte x " +
 		"request x moment), tdeath (script alphabet per pipelined request R respond / T respond with ThrottleMillis=60s / W withhold, plus close-connection at every position or never: " +
 		"every word of {R,T,W}^n x every close position, n = 2..maxN+1, issue modes simul/stagger/late/late2 [last two requests late]/after - a request issued after a T sleeps the " +
-		"throttle out and the connection dies under it by EOF or by a withheld request's read timeout). Each case runs the real client in its own synctest bubble. " +
+		"throttle out and the connection dies under it by EOF or by a withheld request's read timeout). The request KEY is a dimension of the hostile-reply families: besides " +
+		"Metadata, ApiVersions issued on an established connection (v0, v3: response header never flexible, error-35 bodies re-read as v0), Produce v8/v11 and Fetch v11/v13 (their " +
+		"dedicated connections), SASLHandshake v1 and SASLAuthenticate v1/v2 issued as plain requests, JoinGroup v5/v7 (group connection): families short (frame k correctly framed " +
+		"but its payload only the first L bytes of the valid one, every L = 0..header+8, and error-35 body stubs; all 13 flavours), keyed-corr, keyed-trunc (cut at every byte), " +
+		"keyed-size, keyed-prefix (<=1 byte), keyed-tags. Each case runs the real client in its own synctest bubble. " +
 		"distinct_nontrivial = distinct (family, version, per-request outcome classes, connections used) tuples")
 	r.Assume("the reference model reads the bytes the scripted broker actually sent on connection 1 strictly in order, one frame per outstanding request (Kafka's in-order pipelining); connections opened later are answered honestly",
-		"kmsg.MetadataResponse.ReadFrom decides whether a correctly framed body is well-formed",
+		"the kmsg response type's ReadFrom (of the request's key and version) decides whether a correctly framed body is well-formed",
+		"in the keyed families requests are issued at distinct virtual instants; the arrival instant (FIFO order for requests delayed by a throttle) tells which request the broker received in which slot",
+		"throttles: whatever ThrottleMillis > 0 the decodable frames of the script carry is added to the no-death bound (the client honours throttles of any size by design)",
 		"a call may take at most B = (n+2) x RequestTimeoutOverhead(1s) + n x 300ms throttle + 100ms of virtual time (n sequential read timeouts on the first connection, one write timeout, one read timeout on a replacement connection), plus the sum of the 60s throttles the script sent while the connection lived",
 		"once the client itself has reported a connection-fatal error to any caller at time t (read/write error, timeout, framing or correlation error, 'connection has died'; not a cancellation, not an undecodable body), the connection and its broker's throttle are gone: every call issued by then must return by t + B (calls issued later: issue + B) - a throttle of a dead connection is not one of the configured timeouts",
 		"a panic in any client goroutine kills the worker process and is attributed to the case that was running; a second completion of a request's promise panics (close of closed channel) and is caught the same way")
@@ -724,13 +860,15 @@ func TestVerifC22(t *testing.T) {
 		stderr  bytes.Buffer
 		skips   []string
 		crashes int
+		from    int64 // first case index not yet covered by a merged checkpoint
 	}
 	start := func(c *child) {
 		c.stderr.Reset()
 		os.Remove(c.out + ".json")
+		os.Remove(c.out + ".ckpt")
 		c.cmd = exec.Command(os.Args[0], "-test.run", "^TestVerifC22$", "-test.timeout", "0")
 		c.cmd.Env = append(os.Environ(), "GOMAXPROCS=1", fmt.Sprintf("C22_CHILD=%d/%d", c.w, workers), "C22_OUT="+c.out,
-			"C22_SKIP="+strings.Join(c.skips, ","))
+			"C22_SKIP="+strings.Join(c.skips, ","), fmt.Sprintf("C22_FROM=%d", c.from))
 		c.cmd.Stderr = &c.stderr
 		c.cmd.Stdout = &c.stderr
 		if err := c.cmd.Start(); err != nil {
@@ -751,41 +889,7 @@ func TestVerifC22(t *testing.T) {
 		tail string
 	}
 	var crashes []crash
-	for _, c := range children {
-	again:
-		err := c.cmd.Wait()
-		b, rerr := os.ReadFile(c.out + ".json")
-		if err != nil || rerr != nil {
-			pb, perr := os.ReadFile(c.out + ".progress")
-			tail := c.stderr.String()
-			if len(tail) > 5000 {
-				tail = tail[:2500] + "\n...\n" + tail[len(tail)-2500:]
-			}
-			if perr != nil || len(pb) < 8 || c.crashes >= 40 {
-				if infra == "" {
-					infra = fmt.Sprintf("worker %d failed: %v %v\n%s", c.w, err, rerr, tail)
-				}
-				continue
-			}
-			idx := int64(binary.LittleEndian.Uint64(pb))
-			if cases == nil {
-				enumerate(lim, func(cs *Case) { cases = append(cases, cs) })
-			}
-			if idx >= 0 && idx < int64(len(cases)) {
-				crashes = append(crashes, crash{idx, cases[idx], tail})
-			}
-			c.crashes++
-			c.skips = append(c.skips, fmt.Sprint(idx))
-			start(c)
-			goto again
-		}
-		os.Remove(c.out + ".json")
-		os.Remove(c.out + ".progress")
-		var res childResult
-		if err := json.Unmarshal(b, &res); err != nil {
-			infra = "worker result: " + err.Error()
-			continue
-		}
+	merge := func(res *childResult) {
 		if res.Infra != "" && infra == "" {
 			infra = res.Infra
 		}
@@ -814,6 +918,53 @@ func TestVerifC22(t *testing.T) {
 			sum.ByKey[k].Count = n
 		}
 		sum.Samples = append(sum.Samples, res.Samples...)
+	}
+	for _, c := range children {
+	again:
+		err := c.cmd.Wait()
+		b, rerr := os.ReadFile(c.out + ".json")
+		if err != nil || rerr != nil {
+			pb, perr := os.ReadFile(c.out + ".progress")
+			tail := c.stderr.String()
+			if len(tail) > 5000 {
+				tail = tail[:2500] + "\n...\n" + tail[len(tail)-2500:]
+			}
+			if perr != nil || len(pb) < 8 || c.crashes >= 40 {
+				if infra == "" {
+					infra = fmt.Sprintf("worker %d failed: %v %v\n%s", c.w, err, rerr, tail)
+				}
+				continue
+			}
+			idx := int64(binary.LittleEndian.Uint64(pb))
+			if cases == nil {
+				enumerate(lim, func(cs *Case) { cases = append(cases, cs) })
+			}
+			if idx >= 0 && idx < int64(len(cases)) {
+				crashes = append(crashes, crash{idx, cases[idx], tail})
+			}
+			c.crashes++
+			c.skips = append(c.skips, fmt.Sprint(idx))
+			// keep what the dead worker had checkpointed and resume after it
+			if cb, err := os.ReadFile(c.out + ".ckpt"); err == nil {
+				var ck checkpointFile
+				if json.Unmarshal(cb, &ck) == nil && ck.Res != nil && ck.Through >= c.from {
+					merge(ck.Res)
+					c.from = ck.Through + 1
+				}
+				os.Remove(c.out + ".ckpt")
+			}
+			start(c)
+			goto again
+		}
+		os.Remove(c.out + ".json")
+		os.Remove(c.out + ".progress")
+		os.Remove(c.out + ".ckpt")
+		var res childResult
+		if err := json.Unmarshal(b, &res); err != nil {
+			infra = "worker result: " + err.Error()
+			continue
+		}
+		merge(&res)
 	}
 	if infra != "" {
 		ev.InfraError("%s", infra)
@@ -861,7 +1012,7 @@ func TestVerifC22(t *testing.T) {
 	sort.Strings(keys)
 	for _, k := range keys {
 		f := sum.ByKey[k]
-		r.Violation(k, fmt.Sprintf("case #%d %s: %s (n=%d, Metadata v%d, issue mode %s)\n%s\n(%d cases with this key)", f.Index, f.Case.Fam, f.Case.Desc, f.Case.N, f.Case.Ver, f.Case.Mode, f.What, f.Count), f)
+		r.Violation(k, fmt.Sprintf("case #%d %s: %s (n=%d, %s, issue mode %s)\n%s\n(%d cases with this key)", f.Index, f.Case.Fam, f.Case.Desc, f.Case.N, flavour{f.Case.Key, f.Case.Ver}, f.Case.Mode, f.What, f.Count), f)
 	}
 	if len(crashes) > 0 {
 		sort.Slice(crashes, func(i, j int) bool {
@@ -875,8 +1026,8 @@ func TestVerifC22(t *testing.T) {
 		for _, x := range crashes {
 			all = append(all, x.idx)
 		}
-		r.Violation("panic", fmt.Sprintf("case #%d %s: %s (n=%d, Metadata v%d, issue mode %s)\nthe worker process died while this case was running:\n%s\n(%d cases killed their worker: %v)",
-			cr.idx, cr.c.Fam, cr.c.Desc, cr.c.N, cr.c.Ver, cr.c.Mode, cr.tail, len(crashes), all),
+		r.Violation("panic", fmt.Sprintf("case #%d %s: %s (n=%d, %s, issue mode %s)\nthe worker process died while this case was running:\n%s\n(%d cases killed their worker: %v)",
+			cr.idx, cr.c.Fam, cr.c.Desc, cr.c.N, flavour{cr.c.Key, cr.c.Ver}, cr.c.Mode, cr.tail, len(crashes), all),
 			map[string]any{"case": cr.c, "stderr": cr.tail, "all_crashing_case_indices": all})
 	}
 	os.Exit(r.Write())
